@@ -124,8 +124,23 @@ func judge(m *mp.Model, doc *c02.ClassF, rs ruleSet, impl []implPage, seed uint6
 			add("page-counter", "", fmt.Sprintf("page %d: margin box shows %v, expected %s", i, p.margin, want))
 		}
 	}
-	if n > 0 && !impl[0].right && root.b.St.BB == "auto" {
-		add("first-page-side", "", "the first page of an ltr document is a left page")
+	if n > 0 {
+		// css-page-3 §"page progression": the first page is a right page in ltr, a left page in rtl, unless
+		// the root's break-before asks for a side
+		want := doc.LTR
+		switch root.b.St.BB {
+		case "left":
+			want = false
+		case "right":
+			want = true
+		case "recto":
+			want = doc.LTR
+		case "verso":
+			want = !doc.LTR
+		}
+		if impl[0].right != want {
+			add("first-page-side", "", fmt.Sprintf("the first page (direction ltr=%v, root break-before %s) is a %v page", doc.LTR, root.b.St.BB, map[bool]string{true: "right", false: "left"}[impl[0].right]))
+		}
 	}
 
 	// J2 / J3: forced breaks and named-page changes between adjacent siblings
@@ -166,10 +181,14 @@ func judge(m *mp.Model, doc *c02.ClassF, rs ruleSet, impl []implPage, seed uint6
 					}
 					wantRight, sided := false, true
 					switch v {
-					case "right", "recto":
+					case "right":
 						wantRight = true
-					case "left", "verso":
+					case "left":
 						wantRight = false
+					case "recto": // recto is the right page in a left-to-right document, the left page otherwise
+						wantRight = doc.LTR
+					case "verso":
+						wantRight = !doc.LTR
 					default:
 						sided = false
 					}
